@@ -3488,6 +3488,15 @@ impl<'a> Parser<'a> {
     /// Try to parse arrow function parameters (with optional type annotations)
     /// Returns Ok with params if successful, Err otherwise
     fn try_parse_arrow_params(&mut self) -> Result<Vec<FunctionParam>, JsError> {
+        // Inside the parameter parentheses `in` is an operator again, also in a for-initialiser
+        let saved_no_in = self.no_in;
+        self.no_in = false;
+        let params = self.try_parse_arrow_params_inner();
+        self.no_in = saved_no_in;
+        params
+    }
+
+    fn try_parse_arrow_params_inner(&mut self) -> Result<Vec<FunctionParam>, JsError> {
         let mut params = vec![];
 
         while !self.check(&TokenKind::RParen) && !self.is_at_end() {
